@@ -280,7 +280,8 @@ PROPS = {
         contracts=[f"{ACTM}:Actor._run_loop", f"{ACTM}:Actor._delay_if_restart", f"{ACTM}:Actor.start", f"{BGSM}:BackgroundService.cancel",
                    f"{BGSM}:BackgroundService.stop", "frequenz.sdk.actor._run_utils:run"],
         lemmas=[],
-        bounded=[],
+        bounded=[dict(kind="native_script", name="restart policy on the real Actor (scripted outcomes, restart limits, second start, "
+                                                 "restart delay of a subclass)", module="native.explore_actor")],
         level="proof",
         explanation="_run_loop: loop invariant (one invocation of the run logic per restart, within the limit) with the run logic as "
                     "a scripted collaborator that may return, raise Exception, be cancelled or raise another BaseException at "
@@ -327,7 +328,8 @@ PROPS = {
                    f"{FS}:MetricFetcher._synchronize_and_fetch_fallback", f"{FS}:MetricFetcher.fetch_next_with_fallback",
                    f"{FS}:MetricFetcher._fetch_next"],
         lemmas=[],
-        bounded=[],
+        bounded=[dict(kind="native_script", name="real FormulaEngine over real channels: streams starting at different steps, "
+                                                 "every sample from inputs of its own timestamp", module="native.explore_evaluator")],
         level="proof",
         explanation="FormulaEvaluator.apply (with _synchronize_metric_timestamps inlined) against two scripted input streams on a "
                     "common grid with arbitrary first timestamps: on return both inputs the steps read are the samples stamped "
@@ -393,7 +395,9 @@ PROPS = {
                   + [f"{FEV}:FormulaEvaluator.apply"],      # "... on the input values of the same timestamp"
         lemmas=[],
         bounded=[dict(kind="native_script", name="compiled formula vs exact arithmetic (Tokenizer, FormulaBuilder, composition API)",
-                      module="native.explore_formulas")],
+                      module="native.explore_formulas"),
+                 dict(kind="native_script", name="values of the SAME timestamp: real FormulaEngine over real channels, streams "
+                                                 "starting at different steps", module="native.explore_evaluator")],
         level="exploration",
         explanation="The property proper (compiler correctness of the shunting-yard with its unconventional precedence table and of "
                     "the composition API's implicit parenthesisation) is only EXPLORED, bounded: real Tokenizer/FormulaBuilder/"
